@@ -1,9 +1,30 @@
 import MgpuModel.C10Buddy
 /-!
 Helper lemmas for the buddy allocator model (`MgpuModel/C10Buddy.lean`): level sizes of a power-of-two
-device, the order loops, the free-list accessors, and the exact effect of `allocMulti` on the free lists.
+device, the order loops, the free-list accessors, and the exact effect of `allocMultiPos` on the free lists.
 -/
 namespace C10.Buddy
+
+/-! ## the zero-page guard of `allocateMultiplePages` -/
+
+theorem allocMulti_zero (s : State) : allocMulti s 0 = .ok ([], s) := rfl
+
+theorem allocMulti_pos (s : State) {n : Nat} (h : n ≠ 0) : allocMulti s n = allocMultiPos s n := by
+  simp [allocMulti, h]
+
+theorem amOp_zero (s : State) : amOp s 0 = if noAvail s then .error .oom else .ok ([], s) := by
+  unfold amOp
+  rw [allocMulti_zero]
+  simp
+
+/-- a successful request for no page: nothing returned, nothing changed -/
+theorem amOp_zero_ok {s s' : State} {ps : List Nat} (h : amOp s 0 = .ok (ps, s')) : ps = [] ∧ s' = s := by
+  rw [amOp_zero] at h
+  split at h
+  · cases h
+  · injection h with h
+    injection h with h1 h2
+    exact ⟨h1.symm, h2.symm⟩
 
 /-! ## level sizes of a device of `4096 * 2^F` bytes -/
 
@@ -220,13 +241,13 @@ theorem pagesFrom_nodup : ∀ (n blk : Nat), (pagesFrom blk n).Nodup := by
 
 /-- what a successful `allocateMultiplePages(n)` does to the free lists: it takes the front block of the first
 non-empty level `i ≤ level` and appends one buddy to each of the levels `i+1 … level` -/
-theorem allocMulti_ok {s s' : State} {n : Nat} {pages : List Nat} (h : allocMulti s n = .ok (pages, s')) (hpos : 0 < s.free.length) :
+theorem allocMulti_ok {s s' : State} {n : Nat} {pages : List Nat} (h : allocMultiPos s n = .ok (pages, s')) (hpos : 0 < s.free.length) :
     ∃ i level blk rest, ordOf (n * 4096) ≤ s.free.length - 1 ∧ level = s.free.length - 1 - ordOf (n * 4096) ∧ i ≤ level ∧
       lvl s.free i = blk :: rest ∧ pages = pagesFrom blk n ∧
       s'.base = s.base ∧ s'.size = s.size ∧ s'.free.length = s.free.length ∧
       ∀ j, lvl s'.free j = if j = i then rest else
         if i < j ∧ j ≤ level then lvl s.free j ++ [buddyOf s.base s.size blk j] else lvl s.free j := by
-  unfold allocMulti at h
+  unfold allocMultiPos at h
   simp only at h
   split at h
   · cases h
@@ -321,7 +342,7 @@ theorem inv_init (F base : Nat) : Inv F (init base (4096 * 2 ^ F)) [] := by
 
 /-- the step: a successful `allocateMultiplePages(n)` preserves the invariant, with the returned pages added -/
 theorem inv_allocMulti {F : Nat} {s s' : State} {out pages : List Nat} {n : Nat} (hI : Inv F s out)
-    (h : allocMulti s n = .ok (pages, s')) : Inv F s' (out ++ pages) ∧ s'.base = s.base := by
+    (h : allocMultiPos s n = .ok (pages, s')) : Inv F s' (out ++ pages) ∧ s'.base = s.base := by
   obtain ⟨i, level, blk, rest, hord, hlevel, hile, hbr, hpages, hb, hz, hl, hj⟩ :=
     allocMulti_ok h (by rw [hI.hlen]; omega)
   have hlenF := hI.hlen
@@ -481,6 +502,7 @@ theorem inv_allocMulti {F : Nat} {s s' : State} {out pages : List Nat} {n : Nat}
 theorem inv_popOne {F : Nat} {s s' : State} {out : List Nat} {p : Nat} (hI : Inv F s out)
     (h : popOne s = .ok (p, s')) : Inv F s' (out ++ [p]) ∧ s'.base = s.base := by
   unfold popOne at h
+  rw [allocMulti_pos s (by decide)] at h
   split at h
   · cases h
   · split at h
@@ -528,7 +550,12 @@ theorem inv_popN {F : Nat} : ∀ (k : Nat) (s s' : State) (out ps : List Nat), I
 
 theorem inv_amOp {F : Nat} {s s' : State} {out ps : List Nat} {n : Nat} (hI : Inv F s out)
     (h : amOp s n = .ok (ps, s')) : Inv F s' (out ++ ps) ∧ s'.base = s.base := by
+  by_cases hn0 : n = 0
+  · subst hn0
+    obtain ⟨rfl, rfl⟩ := amOp_zero_ok h
+    exact ⟨by simpa using hI, rfl⟩
   unfold amOp at h
+  rw [allocMulti_pos s hn0] at h
   split at h
   · cases h
   · split at h
@@ -644,9 +671,9 @@ theorem splitLoop_nbits (blk : Nat) : ∀ (k i : Nat) (s s' : State), splitLoop 
         simp only [push] at this
         rw [this, (flipMerge_ok h2).2.2.2.2.2, (flipSplit_ok h1).2.2.2.2.2]
 
-theorem allocMulti_nbits {s s' : State} {n : Nat} {pages : List Nat} (h : allocMulti s n = .ok (pages, s')) :
+theorem allocMulti_nbits {s s' : State} {n : Nat} {pages : List Nat} (h : allocMultiPos s n = .ok (pages, s')) :
     s'.nbits = s.nbits := by
-  unfold allocMulti at h
+  unfold allocMultiPos at h
   simp only at h
   split at h
   · cases h
@@ -682,10 +709,10 @@ theorem findLevel_none_of_zero {f : List (List Nat)} (h : lvl f 0 ≠ []) : ∀ 
 available", the latter exactly when the request exceeds the device or no level `≤ level` has a free block -/
 theorem allocMulti_total {F : Nat} {s : State} {out : List Nat} (n : Nat) (hI : Inv F s out)
     (hnb : s.nbits = 64 * (2 ^ F / 64 + 1)) :
-    (∃ ps s', allocMulti s n = .ok (ps, s')) ∨
-    (allocMulti s n = .error .oom ∧ (F < ordOf (n * 4096) ∨ findLevel s.free (F - ordOf (n * 4096)) = none)) := by
+    (∃ ps s', allocMultiPos s n = .ok (ps, s')) ∨
+    (allocMultiPos s n = .error .oom ∧ (F < ordOf (n * 4096) ∨ findLevel s.free (F - ordOf (n * 4096)) = none)) := by
   have hlen : s.free.length - 1 = F := by rw [hI.hlen]; omega
-  unfold allocMulti
+  unfold allocMultiPos
   simp only [hlen]
   by_cases hord : F < ordOf (n * 4096)
   · right; simp [hord]
@@ -748,6 +775,7 @@ theorem popOne_cases {F : Nat} {s : State} {out : List Nat} (hI : Inv2 F s out) 
     obtain ⟨p, s'⟩ := r
     refine ⟨p, s', rfl, (inv_popOne hI.1 hp).1, ?_⟩
     unfold popOne at hp
+    rw [allocMulti_pos s (by decide)] at hp
     split at hp
     · cases hp
     · split at hp
@@ -763,6 +791,7 @@ theorem popOne_cases {F : Nat} {s : State} {out : List Nat} (hI : Inv2 F s out) 
   | error e =>
     right
     unfold popOne at hp
+    rw [allocMulti_pos s (by decide)] at hp
     split at hp
     · exact hp ▸ rfl
     · rcases allocMulti_total 1 hI.1 hI.2 with ⟨ps, s1, ha⟩ | ⟨ha, -⟩
@@ -798,7 +827,14 @@ theorem popN_cases {F : Nat} : ∀ (k : Nat) (s : State) (out : List Nat), Inv2 
 
 theorem amOp_cases {F : Nat} {s : State} {out : List Nat} (n : Nat) (hI : Inv2 F s out) :
     (∃ ps s', amOp s n = .ok (ps, s') ∧ Inv2 F s' (out ++ ps)) ∨ amOp s n = .error .oom := by
+  by_cases hn0 : n = 0
+  · subst hn0
+    rw [amOp_zero]
+    split
+    · right; rfl
+    · left; exact ⟨[], s, rfl, by simpa using hI⟩
   unfold amOp
+  rw [allocMulti_pos s hn0]
   split
   · right; rfl
   · rcases allocMulti_total n hI.1 hI.2 with ⟨ps, s1, ha⟩ | ⟨ha, -⟩
@@ -863,7 +899,12 @@ theorem amOp_fresh (F base n : Nat) (hn : n * 4096 ≤ 4096 * 2 ^ F) :
     ∃ s', amOp (init base (4096 * 2 ^ F)) n = .ok (pagesFrom base n, s') := by
   have hI := inv2_init F base
   have hna : noAvail (init base (4096 * 2 ^ F)) = false := by simp [noAvail, init]
+  by_cases hn0 : n = 0
+  · subst hn0
+    rw [amOp_zero, hna]
+    exact ⟨_, rfl⟩
   unfold amOp
+  rw [allocMulti_pos _ hn0]
   rw [hna]
   simp only [Bool.false_eq_true, if_false]
   rcases allocMulti_total n hI.1 hI.2 with ⟨ps, s1, ha⟩ | ⟨-, hc⟩
